@@ -367,6 +367,24 @@ def runBase (ds : DS) (env : Env) (j : Json) (o : ObsSt) : E (List Node × List 
     depend on the kind of operation) are those of the sequential operation it behaved as. -/
 def runOp (ds : DS) (env : Env) (j : Json) (o : ObsSt) : E (List Node × List (String × String)) := do
   let op ← jstr (← jget j "op")
+  if op == "syncsubmit" then
+    -- a submission admitted while the round waits: candidates of the model's `stepX … (.syncSubmit …)`
+    let name ← jstr (← jget j "node")
+    let n := getNode ds name
+    let cfg := cfgOf ds name
+    let id ← jstr (← jget j "tx")
+    let tx ← match ds.txs.get? id with
+      | some t => pure t
+      | none => throw s!"submitted tx {id} has no definition"
+    let now ← jint (← jget j "now")
+    let resps ← (← jarr (← jget j "resps")).toList.mapM fun r => do
+      pure ({ target := ← jstr (← jget r "t"), first := ← lookupBlocks ds (jgetD r "a"), second := ← lookupBlocks ds (jgetD r "b") } : Resp)
+    let outs := Sync.outcomes env cfg n.led now resps
+    let cands := (List.range (max 1 outs.length)).map (fun k => stepX env cfg n (.syncSubmit now resps k tx))
+    let (_, infoSub) ← runBase ds env (j.setObjVal! "op" (Json.str "submit")) o
+    let (_, infoS) ← runBase ds env (j.setObjVal! "op" (Json.str "sync")) o
+    -- the round's "nothing may change" monitor (C13) compares the whole node: not applicable when a submission ran
+    return (cands, infoSub ++ infoS.filter (fun kv => kv.1 != "mustkeep") ++ [("effop", "sync")])
   if op != "synctick" then runBase ds env j o else
   let name ← jstr (← jget j "node")
   let n := getNode ds name
@@ -414,8 +432,9 @@ def step (ds : DS) (j : Json) : E (DS × Out) := do
   let envHi := mkEnv ds (U64 - 1)
   let (cands, info) ← runOp ds envLo j o
   let (candsHi, _) ← runOp ds envHi j o
-  -- the sequential operation a `synctick` behaved as
-  let op := if op == "synctick" then ((info.find? (fun kv => kv.1 == "effop")).map (·.2)).getD "sync" else op
+  -- the sequential operation a `synctick` behaved as (a `syncsubmit` is monitored as the round it contains)
+  let opOrig := op
+  let op := if op == "synctick" || op == "syncsubmit" then ((info.find? (fun kv => kv.1 == "effop")).map (·.2)).getD "sync" else op
   -- valuation-table coverage: the result must not depend on the default for missing entries
   let miss := cands.length != candsHi.length || !((List.zip cands candsHi).all (fun (a, b) => sameNode envLo a b))
   -- pick the candidate matching the observed chain (sync); otherwise the first
@@ -437,7 +456,9 @@ def step (ds : DS) (j : Json) : E (DS × Out) := do
     let newly := obsP.drop oldP.length
     if !(obsP.take oldP.length == oldP && newly.length == want.length && want.all newly.contains && newly.all want.contains) then
       diffs := diffs ++ [s!"regsync appended model-set={short want} impl-suffix={short newly}"]
-  let poolBefore := (getNode ds name).pool.map (·.id)
+  -- (the admission monitor judges a pool growth against the chain held AFTER the operation: for a submission inside a
+  -- round that adopted a chain it would judge against the wrong ledger — the model comparison covers that case)
+  let poolBefore := if opOrig == "syncsubmit" then o.pool else (getNode ds name).pool.map (·.id)
   let produced := op == "tick" && o.chain.length == (getNode ds name).led.blocks.length + 1
   let props := if ds.monitorsOn then monitors ds envLo (cfgOf ds name) o poolBefore produced else []
   let propsHi := if ds.monitorsOn then monitors ds envHi (cfgOf ds name) o poolBefore produced else []
